@@ -4,6 +4,10 @@ rename   - every local variable of every covered function renamed, one at a time
 commute  - operands of one commutative operator / symmetric comparison swapped
 struct   - a `pass` inserted before a statement, keyword arguments reversed, two adjacent independent simple
            assignments swapped, x.argsort() respelled as np.argsort(x)
+idiom    - one idiom-level respelling per variant (fuzz_idiom.py: reflected comparison, inverted if/else, merged or split
+           nested ifs, inlined / extracted temporary, positional <-> keyword argument, else after return, np.where / nonzero,
+           dtype strings, slice and range lower bounds, ...)
+combo    - a 'refactoring commit': three random idiom edits in sequence plus a renaming of every local
 
 All variants are analysed in memory through the loader's overlay.  A VIOLATION on a variant is a checker defect (self-test
 failure); ANALYSIS-ERROR (no verdict) is counted but tolerated."""
@@ -130,10 +134,66 @@ def _struct_variants(source, fn):
             yield ('x.argsort() -> np.argsort(x)', t2)
 
 
+from .roles import callee_info as _callee_info
+
+
+def idiom_jobs(prop, repo, covered, stride=1):
+    from . import fuzz_idiom
+    jobs = []
+    k = 0
+    for (rel, qual) in sorted(covered):
+        m = repo.modules.get(rel)
+        f = m.funcs.get(qual) if m else None
+        if f is None:
+            continue
+        fn = _orig_def(m, f)
+        if fn is None:
+            continue
+        for cls, desc, thunk in fuzz_idiom.variants(fn, _callee_info(repo, f)):
+            new_fn = thunk()
+            if new_fn is None:
+                continue
+            k += 1
+            if k % stride:
+                continue
+            try:
+                s2 = fuzz_idiom.splice(m.source, fn, new_fn)
+            except Exception:
+                continue
+            jobs.append((prop, repo.root, rel, '%s/%s: %s' % (cls, qual, desc), s2))
+    return jobs
+
+
+def combo_jobs(prop, repo, covered, per_function=2):
+    jobs = []
+    for (rel, qual) in sorted(covered):
+        m = repo.modules.get(rel)
+        f = m.funcs.get(qual) if m else None
+        if f is None or _orig_def(m, f) is None:
+            continue
+        for k in range(per_function):
+            jobs.append((prop, repo.root, rel, 'combo/%s: #%d' % (qual, k), ('combo', qual, k)))
+    return jobs
+
+
+def _build_combo(root, rel, qual, k):
+    from . import fuzz_idiom
+    repo = Repo(root)
+    m = repo.modules[rel]
+    f = m.funcs[qual]
+    fn = _orig_def(m, f)
+    import zlib
+    desc, new_fn = fuzz_idiom.combo(fn, _callee_info(repo, f), zlib.crc32(('%s:%s:%d' % (rel, qual, k)).encode()))
+    return desc, fuzz_idiom.splice(m.source, fn, new_fn)
+
+
 def _job(args):
     prop, root, rel, desc, src2 = args
     from .cli import evaluate
     try:
+        if isinstance(src2, tuple):
+            what, src2 = _build_combo(root, rel, src2[1], src2[2])
+            desc = desc + ' ' + what
         compile(src2, rel, 'exec')
         repo = Repo(root, {rel: src2})
         with contextlib.redirect_stdout(io.StringIO()):
@@ -168,6 +228,8 @@ def run_for(prop, repo, covered):
         for desc, t2 in _struct_variants(m.source, fn):
             ast.fix_missing_locations(t2)
             jobs.append((prop, repo.root, rel, 'struct/%s: %s' % (qual, desc), ast.unparse(t2)))
+    jobs.extend(idiom_jobs(prop, repo, covered))
+    jobs.extend(combo_jobs(prop, repo, covered))
     res = {'variants': len(jobs), 'silent': 0, 'no_verdict': 0, 'skipped': 0, 'false_alarms': [], 'no_verdict_cases': []}
     if not jobs:
         return res
